@@ -10,6 +10,8 @@
 //   (B) monotonicity: worst error at acc/100 <= max(10 x worst error at acc, floor);
 //   (C) interpolated report states: error <= 10 max(e0, e1) + 2 x (interpolation-theory remainder for the step
 //       [t0,t1] around it, from the 4th (Hermite) / 2nd (ExplicitEuler, linear) derivative of the exact solution);
+//   (A),(B) are also applied with interpolation disallowed on an irregular report grid driven by plain stepTo (no
+//       return-every-step: CPodes then runs in its stop-time mode) and to the state at a final time (setFinalTime) on short intervals;
 //   (D) fixed-step runs (step-halving triple h, h/2, h/4 in the asymptotic range): observed order
 //       >= getMethodMinOrder() - 0.4.
 #include "pbt.h"
@@ -284,7 +286,7 @@ void property(const pbt::Tape& t, pbt::Ctx& ctx) {
 pbt::Config config() {
     pbt::Config c; c.prop = "C20"; c.K = 8; c.minUnits = 1; c.caseTimeoutSecs = 120;
     c.quick = {150, 1500, 12, 9}; c.thorough = {1000, 12000, 12, 100};
-    c.rule = "rapidcheck tape -> integrator (RK Merson, RK3, RK2, RK Feldberg, Verlet, ExplicitEuler, SemiExplicitEuler, SemiExplicitEuler2, CPodes BDF, CPodes Adams) x norm (RMS/inf) x accuracy 1e-2..1e-7 (first-order methods 1e-2..1e-5), each also at accuracy/100 x horizon T in [0.5,3] x analytic system built from the tape units: oscillatory 2x2 blocks (a in [-2,0], w in [0.5,12]), real decaying blocks (0.1..10), mildly stiff real blocks (10..200/T), Givens mixing, <= 2 harmonic oscillators, <= 1 librating pendulum (amplitude 0.1..2.5 rad), dimension 1..12 x random report grid of 3..9 times (interpolated reports judged). Modes: accuracy ladder (2 runs), ladder with interpolation off and report pairs 1e-12..1e-6 apart (2 runs), fixed-step convergence (4 runs h, h/2, h/4, h/8). Non-trivial: dimension >= 2 with an oscillatory component, and (ladder) tighter accuracy <= 1e-5 or (fixed step) asymptotic range reached.";
+    c.rule = "rapidcheck tape -> integrator (RK Merson, RK3, RK2, RK Feldberg, Verlet, ExplicitEuler, SemiExplicitEuler, SemiExplicitEuler2, CPodes BDF, CPodes Adams) x norm (RMS/inf) x accuracy 1e-2..1e-7 (first-order methods 1e-2..1e-5), each also at accuracy/100 x horizon T in [0.5,3] x analytic system built from the tape units: oscillatory 2x2 blocks (a in [-2,0], w in [0.5,12]), real decaying blocks (0.1..10), mildly stiff real blocks (10..200/T), Givens mixing, <= 2 harmonic oscillators, <= 1 librating pendulum (amplitude 0.1..2.5 rad), dimension 1..12 x random report grid of 3..9 times (interpolated reports judged). Modes: accuracy ladder with return-every-step (2 runs), ladder with interpolation off and report pairs 1e-12..1e-6 apart (2 runs), ladder with interpolation off on the irregular report grid with plain stepTo (2 runs; for CPodes every report is a stop time), setFinalTime on short intervals 0.05..3 with plain stepTo straight to the end (up to 6 end times x 2 accuracies), fixed-step convergence (4 runs h, h/2, h/4, h/8). Non-trivial: dimension >= 2 with an oscillatory component, and (ladder) tighter accuracy <= 1e-5 or (fixed step) asymptotic range reached.";
     c.assumptions = {"closed-form solutions of gen/anasys.h (block exponentials, harmonic oscillator, Jacobi elliptic functions; pendulum form self-checked against long double RK4 in a directed case)",
                      "error norm: max_i |y_i - yexact_i| / max(1, amplitude scale): the integrators control error relative to max(|y_i|, 1)",
                      "global error law C_int (1 + rho T) acc^e_int with frozen constants (calibration table in notes/C20.md, >= 10x margin); a degradation smaller than that margin is invisible",
